@@ -487,6 +487,12 @@ func framingMutation(r *core.Rand, b *c19Base) ([]byte, string) {
 	pickVal := func(cur int) int {
 		n := len(b.raw)
 		cands := append([]int64{int64(cur) - 1, int64(cur) + 1, int64(n), int64(n) - 1, int64(n) + 1, int64(b.ft.MetaOffset)}, boundaryInts...)
+		// in-bounds values that belong to something else: the region's start and end, other blocks'
+		// row-data and filter-section offsets and ends (sections out of order, overlapping, shared)
+		cands = append(cands, int64(meta.BlockFilterRegionOffset), int64(meta.BlockFilterRegionOffset+meta.BlockFilterRegionSize), int64(meta.BlockFilterRegionOffset)+1)
+		for _, ob := range meta.DataBlocks {
+			cands = append(cands, int64(ob.BloomFilterOffset), int64(ob.BloomFilterOffset+ob.BloomFilterSize), int64(ob.RowDataOffset), int64(ob.RowDataOffset+ob.RowDataSize), int64(ob.BloomFilterSize), int64(ob.RowDataSize))
+		}
 		if r.Chance(0.2) {
 			return int(r.Int63() % (int64(n) * 2))
 		}
@@ -494,7 +500,14 @@ func framingMutation(r *core.Rand, b *c19Base) ([]byte, string) {
 	}
 	for t := r.Range(1, 2); t > 0; t-- {
 		bi := r.Intn(len(meta.DataBlocks))
-		switch r.Intn(9) {
+		switch r.Intn(10) {
+		case 9:
+			// two blocks trade filter sections: every extent stays in bounds and CRC-valid
+			bj := r.Intn(len(meta.DataBlocks))
+			a, c := &meta.DataBlocks[bi], &meta.DataBlocks[bj]
+			a.BloomFilterOffset, c.BloomFilterOffset = c.BloomFilterOffset, a.BloomFilterOffset
+			a.BloomFilterSize, c.BloomFilterSize = c.BloomFilterSize, a.BloomFilterSize
+			desc = append(desc, fmt.Sprintf("block%d<->block%d.filterSection", bi, bj))
 		case 7:
 			meta.DataBlocks[bi].UncompressedSize = pickVal(meta.DataBlocks[bi].UncompressedSize)
 			desc = append(desc, fmt.Sprintf("block%d.uncompressedSize=%d", bi, meta.DataBlocks[bi].UncompressedSize))
